@@ -10,7 +10,10 @@ open Gedcom.MergeG
 /-
   mergeg <nm> m*  G G          m := B i j | L i | R j
   G := <ni> rcd* <nf> rcd*     rcd := <ptr> <nrefs> (role target)*
-  answer: the sorted rows  I<ptr> | F<ptr> | r<owner>.<role>.<target>.<#INDI with that pointer>.<#FAM …>
+  answer: the sorted rows  I<ptr> | F<ptr> | r<owner>.<role>.<target>.<#INDI with that pointer>.<#FAM …>.<away>
+  (away: for the HUSB / WIFE / CHIL lines of the merged families, `mergedAway` of the target — the
+  characterisation of `references_resolve_iff`; 0 on the lines of individuals), then
+  `dangling=<length of danglingRefs>`
 -/
 
 def mgTakeN {α} (item : List String → Option (α × List String)) : Nat → List String → Option (List α × List String)
@@ -48,11 +51,11 @@ def mgG (toks : List String) : Option (G × List String) := do
   let (fs, rest) ← mgCount mgRcd rest
   pure (⟨is, fs⟩, rest)
 
-def mgRows (g : G) : List String :=
+def mgRows (m : List M) (l r : G) (g : G) : List String :=
   let cnt (l : List Rcd) (p : Nat) : Nat := (l.filter (fun x => x.ptr == p)).length
-  let refRows (x : Rcd) : List String :=
-    x.refs.map fun rf => s!"r{x.ptr}.{rf.1}.{rf.2}.{cnt g.indis rf.2}.{cnt g.fams rf.2}"
-  g.indis.flatMap (fun x => s!"I{x.ptr}" :: refRows x) ++ g.fams.flatMap (fun x => s!"F{x.ptr}" :: refRows x)
+  let refRows (fam : Bool) (x : Rcd) : List String :=
+    x.refs.map fun rf => s!"r{x.ptr}.{rf.1}.{rf.2}.{cnt g.indis rf.2}.{cnt g.fams rf.2}.{b2s (fam && mergedAway m l.indis r.indis rf.2)}"
+  g.indis.flatMap (fun x => s!"I{x.ptr}" :: refRows false x) ++ g.fams.flatMap (fun x => s!"F{x.ptr}" :: refRows true x)
 
 def handleMergeGraph (cmd : String) (rest : List String) : Option String :=
   match cmd with
@@ -61,10 +64,10 @@ def handleMergeGraph (cmd : String) (rest : List String) : Option String :=
       let (m, rest) ← mgCount mgM rest
       let (l, rest) ← mgG rest
       let (r, rest) ← mgG rest
-      if rest.isEmpty then pure (mergeG m l r) else none : Option G) with
-    | some g =>
-      let rows := (mgRows g).mergeSort (fun a b => !decide (b < a))
-      some (if rows.isEmpty then "-" else " ".intercalate rows)
+      if rest.isEmpty then pure (m, l, r) else none : Option (List M × G × G)) with
+    | some (m, l, r) =>
+      let rows := (mgRows m l r (mergeG m l r)).mergeSort (fun a b => !decide (b < a))
+      some ((if rows.isEmpty then "-" else " ".intercalate rows) ++ s!" dangling={(danglingRefs m l r).length}")
     | none => some "bad-op"
   | _ => none
 
